@@ -60,8 +60,12 @@ type Scenario struct {
 	// Restart: a first receiver stores the first half of the tracks (init and segment 1, authorised); a second
 	// receiver on the same storage then gets, per track concurrently, a request without credentials followed by the
 	// authorised uploads (restored tracks send media only, new tracks init and media); Raw: raw-segment mode
-	Restart bool `json:"restart,omitempty"`
-	Raw     bool `json:"raw,omitempty"`
+	// LastRound: inits and numbers 1..3 in turn; then init segments are sent again (1: one track, the MPD mutex is held
+	// so that its registration is in progress; 2: every track, nothing held) while the last number (4) of every
+	// track is uploaded. Nothing follows: the final state must be that of the sequential order
+	LastRound int  `json:"lastround,omitempty"`
+	Restart   bool `json:"restart,omitempty"`
+	Raw       bool `json:"raw,omitempty"`
 	// StartReg: all tracks but the last deliver init and segment 1; then (concurrent run) the MPD mutex is held, the
 	// master's segment 2 starts the channel (the channel goroutine waits for the mutex in its start-up derivation),
 	// the last track registers meanwhile, the mutex is released; then the remaining segments. manifest.mpd is read.
@@ -579,6 +583,61 @@ func runOnce(si, round int, sc Scenario) Outcome {
 		ow.Wait()
 		rcv.Sync(chn)
 	}
+	if sc.LastRound > 0 {
+		chn := sc.Channels[0]
+		for _, tr := range sc.Tracks {
+			count(put(rcv.Router, fmt.Sprintf("/upload/%s/%s/init%s", chn, tr.Name, tr.Ext), inits[tr.Name], sc.Auth))
+		}
+		for nr := uint32(1); nr <= 3; nr++ {
+			for _, tr := range sc.Tracks {
+				count(put(rcv.Router, fmt.Sprintf("/upload/%s/%s/%d%s", chn, tr.Name, nr, tr.Ext), segment(tr, nr), sc.Auth))
+			}
+			rcv.Sync(chn)
+		}
+		again := sc.Tracks
+		if sc.LastRound == 1 {
+			again = sc.Tracks[round%len(sc.Tracks):][:1]
+		}
+		reinit := func(tr Track) {
+			count(put(rcv.Router, fmt.Sprintf("/upload/%s/%s/init%s", chn, tr.Name, tr.Ext), inits[tr.Name], sc.Auth))
+		}
+		last := func(tr Track) {
+			count(put(rcv.Router, fmt.Sprintf("/upload/%s/%s/4%s", chn, tr.Name, tr.Ext), segment(tr, 4), sc.Auth))
+		}
+		var lw sync.WaitGroup
+		switch {
+		case sc.Sequential:
+			for _, tr := range again {
+				reinit(tr)
+			}
+			for _, tr := range sc.Tracks {
+				last(tr)
+			}
+		case sc.LastRound == 1:
+			release, _ := rcv.HoldMPD(chn)
+			for _, tr := range again {
+				lw.Add(1)
+				go func(tr Track) { defer lw.Done(); reinit(tr) }(tr)
+			}
+			time.Sleep(20 * time.Millisecond) // the registration waits for the MPD mutex
+			for _, tr := range sc.Tracks {
+				last(tr)
+			}
+			time.Sleep(30 * time.Millisecond) // the channel goroutine has got the report that completes number 4
+			release()
+		default:
+			go_ := make(chan struct{})
+			for _, tr := range sc.Tracks {
+				lw.Add(2)
+				go func(tr Track) { defer lw.Done(); <-go_; reinit(tr) }(tr)
+				go func(tr Track) { defer lw.Done(); <-go_; last(tr) }(tr)
+			}
+			close(go_)
+		}
+		lw.Wait()
+		rcv.Sync(chn)
+		out.MPDTrace = map[string][]string{chn: {mpdSummary(storage, chn)}}
+	}
 	if sc.Backlog {
 		chn := sc.Channels[0]
 		seg := func(tr Track, nr uint32) []byte { return segment(tr, nr) }
@@ -637,7 +696,7 @@ func runOnce(si, round int, sc Scenario) Outcome {
 		mu.Unlock()
 	}
 	for _, chn := range sc.Channels {
-		if sc.Backlog || sc.Feed > 0 || sc.Restart || sc.StartReg || sc.OpenStart || sc.Overlap {
+		if sc.Backlog || sc.Feed > 0 || sc.Restart || sc.StartReg || sc.OpenStart || sc.Overlap || sc.LastRound > 0 {
 			break
 		}
 		for _, tr := range sc.Tracks {
